@@ -351,7 +351,7 @@ func osfsExec(c *Ctx, op string) {
 		}
 		rel := strings.TrimPrefix(rp.String(), "./")
 		before, _ := Snapshot(outer)
-		follow := name == "stat" || name == "chmod" || name == "readdir" || name == "settimes" || name == "open" || name == "openx"
+		follow := name == "stat" || name == "chmod" || name == "readdir" || name == "settimes" || name == "open" || name == "openx" || name == "opendir" || name == "openpathx"
 		kd, ki, ke := kernelResolve(bfd, rel, follow)
 		var opErr error
 		var got string
@@ -387,6 +387,31 @@ func osfsExec(c *Ctx, op string) {
 					b, _ := io.ReadAll(io.LimitReader(fl, 100))
 					fl.Close()
 					got = string(b)
+				}
+			case "opendir", "opendirnf", "openpathx":
+				// O_DIRECTORY alone follows a final symlink (only together with O_NOFOLLOW does the kernel refuse it): what is
+				// opened is a directory inside the base — the one the kernel's in-root resolution names — or nothing
+				flags := os.O_RDONLY | syscall.O_DIRECTORY
+				if name == "opendirnf" {
+					flags |= syscall.O_NOFOLLOW
+				}
+				if name == "openpathx" { // with O_PATH the kernel ignores O_CREAT and O_EXCL — and follows a final symlink
+					flags = unix.O_PATH | os.O_CREATE | os.O_EXCL
+				}
+				var fl fs.File
+				fl, opErr = afs.OpenFile(rp, flags, 0)
+				if opErr == nil {
+					if of, ok := fl.(*os.File); ok {
+						var st unix.Stat_t
+						if unix.Fstat(int(of.Fd()), &st) == nil {
+							if where, e := os.Readlink(fmt.Sprintf("/proc/self/fd/%d", of.Fd())); e == nil && where != base && !strings.HasPrefix(where, base+"/") {
+								c.PropFail("osfs-escape-open", fmt.Sprintf("OpenFile(%q, %#x) opened %s, which is outside the base", raw, flags, where), op)
+							} else if name == "opendir" && ke == nil && (uint64(st.Dev) != kd || st.Ino != ki) {
+								c.PropFail("osfs-differs-from-kernel", fmt.Sprintf("OpenFile(%q, O_RDONLY|O_DIRECTORY) opened another directory than the kernel's in-root resolution names", raw), op)
+							}
+						}
+					}
+					fl.Close()
 				}
 			case "mkdir":
 				opErr = afs.Mkdir(rp.Join(fs.MustRelPath("newdir")), 0755)
@@ -776,7 +801,7 @@ func osfsEngine(c *Ctx) {
 		corpus = append(corpus, chain)
 	}
 	paths := []string{"d/l1", "d/f", "c0", "c10", ".", "a", "b", "d", "d/a", "l1", "l2", "l1/a", "l2/a", "d/l1", "d/l1/a", "sub", "sub/a", "f", "f/x", "nope", "l1/..", "d/sub/a", "l1/l2", "deep/er", "secret"}
-	ops := []string{"stat", "lstat", "open", "openx", "mkdir", "chmod", "settimes", "readdir", "readlink", "settimesl", "lchown", "mklink", "mkfifo", "mkdev"}
+	ops := []string{"stat", "lstat", "open", "openx", "opendir", "opendirnf", "openpathx", "mkdir", "chmod", "settimes", "readdir", "readlink", "settimesl", "lchown", "mklink", "mkfifo", "mkdev"}
 	for k := 0; k < nTrees+len(corpus); k++ {
 		var ns []osNode
 		if k < len(corpus) {
@@ -795,7 +820,7 @@ func osfsEngine(c *Ctx) {
 		dps := derivedPaths(ns)
 		ps = append(append([]string(nil), ps...), dps...)
 		for _, p := range dps {
-			for _, o := range []string{"open", "openx", "stat", "chmod", "readlink", "settimesl", "lchown", "mklink"} {
+			for _, o := range []string{"open", "openx", "opendir", "opendirnf", "openpathx", "stat", "chmod", "readlink", "settimesl", "lchown", "mklink"} {
 				osfsExec(c, fmt.Sprintf("osfs %s op %s %s", tt, o, hx(p)))
 			}
 		}
